@@ -213,7 +213,12 @@ static _Bool gath_in_interval(uint64_t lo, uint64_t hi) { for (unsigned k = 0; k
 static struct node* nondet_node(void) { unsigned k = nondet_uint(); return k < NN ? NODE(k) : (struct node*)0; }
 /* ---- contract stub of the virtual delete_self (unit rlist) + the reclaim-side C01 obligation ---- */
 _Bool g_double_delete; unsigned g_deletes; uint64_t g_first_delete_clock;
+/* delete_self runs CLIENT code (the node's destructor / deleter).  Client code may use guard_ptrs of the same reclaimer (a node that retires its children does):
+   if the thread has no control block at that moment, a new record is registered for it.  Inside ~thread_data that record would never be released (ghost flag) */
+_Bool g_in_dtor, g_dtor_had_record, g_deleter_ran_without_record;
+static _Bool thread_has_record(void);
 static void n_delete_self(struct node* n) {
+  if (g_in_dtor && g_dtor_had_record && !thread_has_record()) g_deleter_ran_without_record = 1;
 #ifdef XV_HE
   XV_OBL("hescan.spares_protected_interval", !gath_in_interval(n->construction_era, n->retirement_era));
 #else
@@ -642,10 +647,16 @@ void h_reclaim(void) {
 #endif
 
 /* =============================== ~thread_data =============================== */
+static _Bool thread_has_record(void) { return local_thread_data.control_block != 0; }
 void h_dtor(void) {
   havoc_state();
   size_t cnt0 = number_of_active_hps; _Bool had_cb = local_thread_data.control_block != 0; _Bool had_list = in_nl != 0;
+  g_in_dtor = 1; g_dtor_had_record = had_cb; g_deleter_ran_without_record = 0;
   DTOR(&local_thread_data);
+  g_in_dtor = 0;
+  /* C17: the record is given back only after the last client deleter has run: a deleter that uses a guard_ptr (a node retiring its children) would otherwise
+     register a fresh record for the exiting thread that nobody ever releases - one leaked record per thread generation */
+  XV_OBL("hpscan.dtor.releases_record", !g_deleter_ran_without_record);
   XV_OBL("hpscan.search_sorted", g_search_unsorted == 0 && g_reclaim_unsorted == 0); XV_MODEL_ASSERT("vector capacity", !g_model_overflow);
   struct node* ab = global_thread_block_list.abandoned_retired_nodes;
   _Bool wf; unsigned len = chain_len(ab, &wf);
